@@ -203,7 +203,7 @@ Proof.
     cbn [fst snd] in Q3, Hn3. use_flush b3 s Q3 b4 o3 Q4 Hn4. cbn [fst snd]. split; [apply wQ_set; trivial|].
     intros s0 H _. inversion H; subst s0. finish_once. repeat apply quiet_app; try (apply notes_quiet; assumption).
     apply quiet_tag. intros r Hr. apply in_flat_map in Hr. destruct Hr as [p [_ Hr]].
-    destruct (znth (b_msgs b1) (p - 1)); [|destruct Hr]. destruct k; destruct Hr as [<-|[]]; reflexivity.
+    destruct (znth (b_msgs b1) (p - 1)); [|destruct Hr]. destruct k; repeat (destruct Hr as [<-|Hr]; [reflexivity|]); destruct Hr.
   - (* OSearch *)
     unfold in_mbox. destruct (sel w s) as [n|]; [|split; [exact Hw|intros s0 H _; inversion H; subst; apply once_single; reflexivity]].
     destruct (get_box w n) as [b|] eqn:E; [|split; [exact Hw|intros s0 H _; inversion H; subst; apply once_single; reflexivity]].
